@@ -888,3 +888,10 @@ impl<'a, T> Iterator for ActorOwnSlabIter<'a, T> {
         self.0.next().map(|item| item.1)
     }
 }
+
+// Verification hook (inert unless built by Kani with the
+// `uazu-stakker-verif` feature): harness module kept in /verif
+#[cfg(all(kani, feature = "uazu-stakker-verif"))]
+mod uazu_stakker_verif {
+    include!(concat!(env!("UAZU_STAKKER_VERIF"), "/incrate/actor.rs"));
+}
